@@ -429,3 +429,5 @@ class HddSplit(Suite):
 
 SUITES["hdd_split"] = HddSplit()
 
+from harness.readers import under_O  # noqa: E402
+SUITES["hds_pyO"] = under_O(SUITES["hds"])
